@@ -236,7 +236,15 @@ for line in sys.stdin:
         signal.signal(signal.SIGALRM, _alarm)
         signal.alarm(4)
         try:
-            t, tab = check_memo.observe(check_memo.run_op(op))
+            ops = op if isinstance(op, list) else [op]
+            for prior in ops[:-1]:            # a history: the earlier operations run in the same pristine child
+                try:
+                    check_memo.run_op(prior)
+                except TimeoutError:
+                    raise
+                except Exception:
+                    pass
+            t, tab = check_memo.observe(check_memo.run_op(ops[-1]))
             res = [t, tab, ""]
         except TimeoutError:
             res = ["", [], "Timeout"]
@@ -266,7 +274,7 @@ class ColdServer:
     def __init__(self):
         self.p = subprocess.Popen([sys.executable, "-c", SERVER_SCRIPT], stdin=subprocess.PIPE, stdout=subprocess.PIPE, text=True, env=dict(os.environ))
 
-    def cold(self, op: dict):
+    def cold(self, op):
         try:
             self.p.stdin.write(json.dumps(op) + "\n")
             self.p.stdin.flush()
@@ -376,6 +384,60 @@ def cold_results(ops: list[dict]) -> dict:
     return dict(zip(uniq.keys(), vals))
 
 
+def collision_pairs(thorough: bool) -> list[list[dict]]:
+    """B4, exhaustive: every two-operation history whose operations differ in exactly ONE coordinate of one atom - the
+    variable name (python_version / python_full_version / platform_release) or the spelling of the literal ('3.8' vs
+    '3.8.0', a one-entry vs a two-entry list) - over all nine operators, merged with a python_full_version /
+    python_version partner by & and |.  A memo keyed on less than (name, operator, literal text) confuses exactly
+    these; the random histories of B3 only sample them."""
+    names = ["python_version", "python_full_version", "platform_release"]
+    atoms = [(n, o, v) for n in names for o in ("~=", "==", "!=", ">=", "<=", "<", ">") for v in ("3.8", "3.8.0")]
+    atoms += [(n, o, v) for n in names for o in ("in", "not in") for v in ("3.8, 3.9", "3.8")]
+    partners = ['python_full_version >= "3.8.1"', 'python_full_version >= "3.9"'] + (['python_full_version < "3.9.2"', 'python_version >= "3.7"'] if thorough else [])
+    out = []
+    for a in atoms:
+        for b in atoms:
+            if a == b or a[1] != b[1] or sum(x != y for x, y in zip(a, b)) != 1:
+                continue
+            for partner in partners:
+                for k in ("and", "or"):
+                    ta, tb = (f'{n} {o} "{v}"' for n, o, v in (a, b))
+                    out.append([{"kind": k, "x": ta, "y": partner}, {"kind": k, "x": tb, "y": partner}])
+    return out
+
+
+def _b4_chunk(hists):
+    """warm = both operations, in order, in one child forked from a pristine interpreter; cold = the second alone."""
+    fails, n, skipped = [], 0, 0
+    server = ColdServer()
+    cold_memo: dict[str, tuple] = {}
+    for hist in hists:
+        key = json.dumps(hist[-1], sort_keys=True)
+        if key not in cold_memo:
+            cold_memo[key] = server.cold(hist[-1])
+        c, cexc = cold_memo[key]
+        w, wexc = server.cold(hist)
+        if "Timeout" in (cexc, wexc):
+            skipped += 1
+            continue
+        n += 1
+        ctx = {"kind": "collision-pair", "history": hist}
+        if wexc or cexc:
+            if wexc != cexc:
+                fails.append((f"C10:exception-depends-on-history:{wexc or 'none'}-vs-{cexc or 'none'}", f"{hist[-1]} after {hist[0]}", ctx))
+            continue
+        text_ok, meaning_ok, cls = compare(tuple(w), tuple(c))
+        if not meaning_ok:
+            fails.append(("C10:meaning-depends-on-history", f"{hist[-1]} gives {w[0]!r} after {hist[0]}, {c[0]!r} alone in a fresh interpreter", dict(ctx, warm=w[0], cold=c[0])))
+        elif not text_ok:
+            sig = "C10:text:" + (cls if cls != "other" else "differs-other")
+            if "group-order" in cls:
+                sig += ":" + _operand_class(hist[-1])
+            fails.append((sig, f"{hist[-1]} prints {w[0]!r} after {hist[0]}, {c[0]!r} alone in a fresh interpreter", dict(ctx, warm=w[0], cold=c[0])))
+    server.close()
+    return n, fails, skipped
+
+
 def _fresh_interpreter_chunk(args):
     """Thorough: the cold run of each probed position happens in a NEW interpreter."""
     seeds, length = args
@@ -428,6 +490,13 @@ def run(pid: str, tier: str, replay: str | None = None) -> int:
     if replay and json.load(open(replay))["vector"].get("kind") == "random-history" and not json.load(open(replay))["vector"].get("fresh_interpreter"):
         vec = json.load(open(replay))["vector"]
         n, fails, _ = _b3_chunk(([vec["seed"]], vec["length"], True))
+        for f in fails:
+            rep.violation(*f)
+        rep.set(states=1, transitions=1, traces_validated_against_impl=n)
+        rep.sample({"replayed": replay})
+        return rep.finish()
+    if replay and json.load(open(replay))["vector"].get("kind") == "collision-pair":
+        n, fails, _ = _b4_chunk([json.load(open(replay))["vector"]["history"]])
         for f in fails:
             rep.violation(*f)
         rep.set(states=1, transitions=1, traces_validated_against_impl=n)
@@ -494,6 +563,16 @@ def run(pid: str, tier: str, replay: str | None = None) -> int:
     rep.count("b3_random_histories", nh)
     rep.count("skipped_timeout", skipped)
     rep.sample({"binding": "B3", "history": gen_history(seeds[0], 6)})
+    # ---- B4: the exhaustive family of one-coordinate collision pairs, warm and cold both from a pristine interpreter
+    pairs = collision_pairs(thorough)
+    sk4 = 0
+    for n, fails, sk in _pmap(_b4_chunk, _split(pairs, 32)):
+        total += n
+        sk4 += sk
+        for f in fails:
+            rep.violation(*f)
+    rep.count("b4_collision_pair_histories", len(pairs))
+    rep.count("skipped_timeout", sk4)
     nfresh = 800 if thorough else 120
     for n, fails in _pmap(_fresh_interpreter_chunk, [(ch, 12) for ch in _split(seeds[:nfresh], 16)]):
         total += n
